@@ -175,7 +175,7 @@ def check():
             logs[me] = simulation(lambda: table.pause(me, other))
         finally:
             table.finish(me, other)
-    threads = [threading.Thread(target=thread, args=pair) for pair in (('A', 'B'), ('B', 'A'))]
+    threads = [threading.Thread(target=thread, args=pair, name='simulation') for pair in (('A', 'B'), ('B', 'A'))]
     for item in threads:
         item.start()
     for item in threads:
